@@ -11,6 +11,18 @@ import (
 
 type Locker = sync.Locker
 
+// YieldOnUnlock adds a scheduling point after every unlock.  It is off by default: a thread's next
+// visible operation has its own scheduling point in front of it, and everything between an unlock
+// and that point is thread-local in a data-race-free program, so the extra point only multiplies
+// equivalent schedules.
+var YieldOnUnlock = false
+
+func unlockPoint(what string) {
+	if YieldOnUnlock {
+		sched.Point(what)
+	}
+}
+
 type Mutex struct {
 	real   sync.Mutex
 	locked bool
@@ -37,7 +49,7 @@ func (m *Mutex) Unlock() {
 		panic("sync: unlock of unlocked mutex")
 	}
 	m.locked = false
-	sched.Point("Mutex.Unlock")
+	unlockPoint("Mutex.Unlock")
 }
 
 // VerifLocked reports the shim's lock state (harness observation, controlled executions only).
@@ -85,7 +97,7 @@ func (m *RWMutex) Unlock() {
 		panic("sync: Unlock of unlocked RWMutex")
 	}
 	m.writer = false
-	sched.Point("RWMutex.Unlock")
+	unlockPoint("RWMutex.Unlock")
 }
 
 func (m *RWMutex) RLock() {
@@ -109,7 +121,7 @@ func (m *RWMutex) RUnlock() {
 		panic("sync: RUnlock of unlocked RWMutex")
 	}
 	m.readers--
-	sched.Point("RWMutex.RUnlock")
+	unlockPoint("RWMutex.RUnlock")
 }
 
 func (m *RWMutex) RLocker() Locker { return (*rlocker)(m) }
